@@ -127,6 +127,21 @@ pub fn check(c: &Case) -> Verdict {
             v.fail = Some(format!("{} | cfg={} | reader: {}", m, cfg_show(c.cfg), show_recs(&recs)));
         }
     }
+    // a reader cloned after k calls (k a pure function of the input) is a reader in the same state:
+    // the run that continues on the clone and the run that continues on the original both equal the
+    // uninterrupted run
+    if v.fail.is_none() && recs.len() > 1 {
+        let k = (data.iter().fold(data.len(), |h, b| h.wrapping_mul(31).wrapping_add(*b as usize)) >> 3) % recs.len();
+        let (on_clone, on_original) = crate::rec::read_slice_handover(data, c.cfg, k);
+        if let Some(d) = crate::rec::first_diff(&recs, &on_clone) {
+            v.fail = Some(format!("reader cloned after {} calls, the clone continues: {} | cfg={} | uninterrupted: {}", k, d, cfg_show(c.cfg), show_recs(&recs)));
+        } else if let Some(d) = crate::rec::first_diff(&recs, &on_original) {
+            v.fail = Some(format!("reader cloned after {} calls, the original continues after the clone finished: {} | cfg={} | uninterrupted: {}", k, d, cfg_show(c.cfg), show_recs(&recs)));
+        }
+        if k > 0 {
+            v.classes.push("cloned-mid-stream");
+        }
+    }
     v
 }
 
